@@ -1,0 +1,50 @@
+//go:build verif
+// +build verif
+
+package wsutil
+
+// This file is compiled only with the "verif" build tag. It exposes read-only
+// projections of internal state for the conformance harness in /verif; it adds
+// no behaviour and changes no existing line.
+
+// WriterVerifState is a snapshot of the Writer's internal bookkeeping.
+type WriterVerifState struct {
+	Raw, Buf, N int
+	Dirty       bool
+	Fseq        int
+	Err         bool
+	NoFlush     bool
+	Extensions  int
+}
+
+// VerifState returns the internal state of w.
+func (w *Writer) VerifState() WriterVerifState {
+	return WriterVerifState{
+		Raw: len(w.raw), Buf: len(w.buf), N: w.n,
+		Dirty: w.dirty, Fseq: w.fseq, Err: w.err != nil,
+		NoFlush: w.noFlush, Extensions: len(w.extensions),
+	}
+}
+
+// VerifState returns the limit and the byte counter of c and the state of
+// the Writer inside.
+func (c *ControlWriter) VerifState() (limit, n int, w WriterVerifState) {
+	return c.limit, c.n, c.w.VerifState()
+}
+
+// ReaderVerifState is a snapshot of the Reader's internal bookkeeping.
+type ReaderVerifState struct {
+	HasFrame   bool
+	RawN       int64
+	Fragmented bool
+	OpCode     byte
+	UTF8State  uint32
+}
+
+// VerifState returns the internal state of r.
+func (r *Reader) VerifState() ReaderVerifState {
+	return ReaderVerifState{
+		HasFrame: r.frame != nil, RawN: r.raw.N, Fragmented: r.fragmented(),
+		OpCode: byte(r.opCode), UTF8State: r.utf8.state,
+	}
+}
